@@ -77,7 +77,6 @@ def lex(text):
             i += 1
             continue
         if s.startswith("#include", i):
-            toks.append("#include")
             i += 8
             while i < n and s[i].isspace():
                 i += 1
@@ -85,8 +84,10 @@ def lex(text):
                 j = s.find(">", i)
                 if j < 0:
                     raise LexError("unterminated #include")
-                toks.append(s[i:j + 1])
+                toks.append("#include " + s[i:j + 1])
                 i = j + 1
+            else:
+                toks.append("#include")
             continue
         m = _IDENT.match(s, i)
         if m:
